@@ -165,6 +165,47 @@ type sEmbed struct {
 	Z uint8
 }
 
+// deep embedding: field order must follow the declaration order at every level
+type Deep4 struct {
+	G int64
+	H string
+	I []byte
+}
+type Deep3 struct {
+	E int64
+	Deep4
+	F string
+}
+type Deep2 struct {
+	C string
+	Deep3
+	D bool
+}
+type sDeep struct {
+	A int64
+	Deep2
+	B string
+}
+type DeepP3 struct {
+	U int64
+	V string
+	W bool
+}
+type DeepP2 struct {
+	S string
+	*DeepP3
+	T uint8
+}
+type DeepP1 struct {
+	*DeepP2
+	R int64
+}
+type sDeepPtr struct {
+	Q string
+	*DeepP1
+	Z int64
+}
+
 type sPtrs struct {
 	A *int64
 	B *string
@@ -257,6 +298,22 @@ func init() {
 		return built{val: s, ptr: func() any { return new(sEmbed) },
 			ref:   refcbor.A(refcbor.I(s.X), refcbor.T(s.Y), refcbor.Bool(s.M), rB(p), refcbor.U(uint64(s.Z))),
 			class: "embedded", nontrivial: true, norm: normBytes}
+	}))
+	reg(shapeOf("struct-embedded-deep", func(t *rapid.T) sDeep {
+		return sDeep{A: gI64(t, "a"), B: gStr(t, "b"), Deep2: Deep2{C: gStr(t, "c"), D: rapid.Bool().Draw(t, "d"),
+			Deep3: Deep3{E: gI64(t, "e"), F: gStr(t, "f"), Deep4: Deep4{G: gI64(t, "g"), H: gStr(t, "h"), I: gBytes(t, "i")}}}}
+	}, func(s sDeep) built {
+		return built{val: s, ptr: func() any { return new(sDeep) },
+			ref:   refcbor.A(refcbor.I(s.A), refcbor.T(s.C), refcbor.I(s.E), refcbor.I(s.G), refcbor.T(s.H), rB(s.I), refcbor.T(s.F), refcbor.Bool(s.D), refcbor.T(s.B)),
+			class: "embedded-4-levels", nontrivial: true, norm: normBytes}
+	}))
+	reg(shapeOf("struct-embedded-deep-pointers", func(t *rapid.T) sDeepPtr {
+		return sDeepPtr{Q: gStr(t, "q"), Z: gI64(t, "z"), DeepP1: &DeepP1{R: gI64(t, "r"),
+			DeepP2: &DeepP2{S: gStr(t, "s"), T: rapid.Uint8().Draw(t, "t"), DeepP3: &DeepP3{U: gI64(t, "u"), V: gStr(t, "v"), W: rapid.Bool().Draw(t, "w")}}}}
+	}, func(s sDeepPtr) built {
+		return built{val: s, ptr: func() any { return new(sDeepPtr) },
+			ref:   refcbor.A(refcbor.T(s.Q), refcbor.T(s.S), refcbor.I(s.U), refcbor.T(s.V), refcbor.Bool(s.W), refcbor.U(uint64(s.T)), refcbor.I(s.R), refcbor.I(s.Z)),
+			class: "embedded-pointers-3-levels", nontrivial: true, norm: normBytes}
 	}))
 	reg(shapeOf("struct-pointers", func(t *rapid.T) sPtrs {
 		var s sPtrs
